@@ -70,7 +70,8 @@ def dispatchDisk : List String → Option (Obs × Option Obs)
     let sp : Obs :=
       if bad then [("err", "err"), ("lf", "err")]
       else [("err", "ok"), ("under", "1")] ++
-        (if o.single ∧ tame then [("cover", hexList (sortBytes (visible.map (pre ++ ·))))] else [])
+        (if !tame then [("~negzero", "1")] else []) ++
+        (if o.single then [("cover", hexList (sortBytes (visible.map (pre ++ ·))))] else [])
     some (m, some sp)
   | ["disk.find", st, strict, pat, dirok, ents] =>
     let st := styleOf st
@@ -101,7 +102,7 @@ def dispatchDisk : List String → Option (Obs × Option Obs)
           [ ("seq", hex (seqLine s)), ("paths", if s.len ≤ 3000 then hexList ps else "big") ]) ++
         [ ("be", showBool (s.base == pbase && s.ext == pext)),
           ("exist", showBool exist) ]
-      some (m, some ([("err", "ok"), ("be", "1")] ++ (if negz then [] else [("exist", "1")])))
+      some (m, some ([("err", "ok"), ("be", "1"), ("exist", "1")] ++ (if negz then [("~negzero", "1")] else [])))
   | _ => none
 
 end Gfs.Ops
